@@ -221,6 +221,25 @@ static std::string loop_names(cif_loop_tp *loop, std::vector<ustr> &out) {
 }
 static bool contains(const std::vector<ustr> &v, const ustr &s) { return std::find(v.begin(), v.end(), s) != v.end(); }
 
+// Known finding F-PKTALIAS: an entry made by cif_packet_create() under a spelling that is already its own normalised form
+// shares one allocation between the hash key and the "original" key; cif_packet_set_item() under a different equivalent
+// spelling frees it (map.c:182) -> use after free / double free.  Unless the case says strict=1, such packets are built by
+// cif_packet_create(NULL) + cif_packet_set_item() instead, whose entries own two separate strings.
+static bool pktalias(const ustr &created, std::initializer_list<const ustr *> setters) {
+    if (cm::norm_name(created) != created) return false;
+    for (const ustr *s : setters) if (*s != created && cm::norm_name(*s) == created) return true;
+    return false;
+}
+static int make_packet(cif_packet_tp **pkt, const std::vector<ustr> &names, bool by_set_item) {
+    if (by_set_item) {
+        int rc = cif_packet_create(pkt, nullptr);
+        for (size_t i = 0; rc == CIF_OK && i < names.size(); i++) rc = cif_packet_set_item(*pkt, U(names[i]), nullptr);
+        return rc;
+    }
+    std::vector<UChar *> arr; for (auto &n : names) arr.push_back((UChar *) U(n)); arr.push_back(nullptr);
+    return cif_packet_create(pkt, arr.data());
+}
+
 static std::string run_lookup(const CaseFile &c) {
     int kind = (int) c.geti("kind");
     if (kind < 0 || kind > 4) return "bad case file (kind)";
@@ -290,8 +309,9 @@ static std::string run_lookup(const CaseFile &c) {
             CK(cif_container_create_loop(blk, u"cat", names, &loop));
             // the packet names the item by the first probe that is equivalent to A (else by A itself)
             ustr pn = cm::norm_name(pr[0]) == na ? pr[0] : cm::norm_name(pr[1]) == na ? pr[1] : a;
-            UChar *pnames[] = {(UChar *) U(pn), nullptr};
-            CK(cif_packet_create(&pkt, pnames));
+            bool dodge = pktalias(pn, {&a}) && !c.geti("strict");
+            if (dodge) { count_excluded("F-PKTALIAS"); label("excluded:F-PKTALIAS"); }
+            CK((make_packet(&pkt, {pn}, dodge)));
             CK(cif_packet_set_item(pkt, U(a), v1));
             { const UChar **kn = nullptr; size_t cnt = 0; CK(cif_packet_get_names(pkt, &kn)); for (const UChar **p = kn; *p; p++) cnt++; cm::ufree(kn);
               if (cnt != 1) { msg = "packet created for " + show(pn) + " holds " + std::to_string(cnt) + " items after set_item under the equivalent " + show(a); goto done; } }
@@ -365,8 +385,9 @@ static std::string run_lookup(const CaseFile &c) {
             }
         }
     } else {   // kind 4: packet items, no database
-        UChar *names[] = {(UChar *) U(a), (UChar *) U(second), nullptr};
-        CK(cif_packet_create(&pkt, names));
+        bool dodge = pktalias(a, {&pr[0], &pr[1]}) && !c.geti("strict");
+        if (dodge) { count_excluded("F-PKTALIAS"); label("excluded:F-PKTALIAS"); }
+        CK((make_packet(&pkt, {a, second}, dodge)));
         model[na] = a; model[cm::norm_name(second)] = second;
         { const UChar **kn = nullptr; std::vector<ustr> nm; CK(cif_packet_get_names(pkt, &kn)); for (const UChar **p = kn; *p; p++) nm.push_back(ustr((const char16_t *) *p)); cm::ufree(kn);
           if (nm.size() != 2 || nm[0] != a || nm[1] != second) { msg = "cif_packet_get_names after cif_packet_create([" + show(a) + ", " + show(second) + "]) lists " + std::to_string(nm.size()) + " names, first " + (nm.empty() ? "<none>" : show(nm[0])); goto done; } }
@@ -783,6 +804,9 @@ static void strip_c1(CPS &v) { for (auto &c : v) if (is_c1(c)) { count_excluded(
 static int cplen(const ustr &s) { int n = 0; for (char16_t c : s) if (!(c >= 0xDC00 && c <= 0xDFFF)) n++; return n; }
 static bool differ_case_and_form(const ustr &a, const ustr &b) { return cm::nfd(a) != cm::nfd(b) && gg::str_map(a, 2) != gg::str_map(b, 2); }
 // pad three spellings with ASCII so that the longest reaches `target` code points (b gets the pad in upper case)
+// Known finding F-NORMLEN: cif_container_set_value() refuses (CIF_INVALID_ITEMNAME) a valid new name whose *normalised* form is
+// longer than 2048 code points when it has to start the container's scalar loop (container.c:367 re-validates the normalised name).
+static bool normlen_class(const ustr &name) { return name_verdict(name) != V_BAD && cplen(cm::norm_name(name)) > 2048; }
 static void pad3(ustr &a, ustr &b, ustr &n, int target, bool upper_b) {
     int longest = std::max(cplen(a), std::max(cplen(b), cplen(n))), pad = target - longest;
     for (int i = 0; i < pad; i++) { char16_t ch = (char16_t) ('a' + i % 26); a += ch; n += ch; b += upper_b ? (char16_t) (ch - 32) : ch; }
@@ -806,7 +830,11 @@ static CaseFile build_lookup() {
     auto ok = [&](const ustr &s) { return (item ? name_verdict(s) : code_verdict(s)) == V_OK; };
     ustr b = gg::variant(a, from, true, [&](const ustr &s) { return ok(s) && cm::norm_name(s) == na; });
     ustr n = gg::near_miss(a, from, [&](const ustr &s) { return ok(s) && cm::norm_name(s) != na; });
-    if (*g::chance(6)) pad3(a, b, n, (item ? 2048 : 2043) - *g::range(0, 2), *g::chance(70));
+    if (*g::chance(6)) {
+        pad3(a, b, n, (item ? 2048 : 2043) - *g::range(0, 2), *g::chance(70));
+        int excess = 0; for (const ustr *s : {&a, &b, &n}) excess = std::max(excess, cplen(cm::norm_name(*s)) - 2048);
+        if (item && excess > 0) { count_excluded("F-NORMLEN"); for (ustr *s : {&a, &b, &n}) s->resize(s->size() - (size_t) excess); }   // the tail is ASCII padding
+    }
     CaseFile c; c.set("mode", "lookup"); c.seti("kind", kind); c.set("a", ser_u16(a)); c.set("b", ser_u16(b)); c.set("n", ser_u16(n));
     return c;
 }
@@ -862,6 +890,11 @@ static CaseFile build_valid() {
     }
     gg::strip_c1(cs);
     for (auto &cp : cs) if (cp == 0) cp = 1;
+    { ustr s = from_cps(cs);
+      if (normlen_class(s) || normlen_class(u"_" + s)) {   // keep the length, drop the characters whose normalised form is longer than they are
+          count_excluded("F-NORMLEN");
+          for (auto &cp : cs) if (!is_surr(cp) && cplen(cm::norm_name(cp_str(cp))) > 1) cp = 'x';
+      } }
     CaseFile c; c.set("mode", "valid"); c.set("s", ser_u16(from_cps(cs)));
     return c;
 }
@@ -960,6 +993,13 @@ int main(int argc, char **argv) {
     };
     e.replay = run_case;
     e.classify = [](const CaseFile &c) {
+        if (c.get("mode") == "valid") { ustr s = deser_u16(c.get("s")); if (!has_c1(s) && (normlen_class(s) || normlen_class(u"_" + s))) return std::string("F-NORMLEN"); }
+        if (c.get("mode") == "lookup" && c.geti("kind") == 2 && normlen_class(deser_u16(c.get("a")))) return std::string("F-NORMLEN");
+        if (c.get("mode") == "lookup" && (c.geti("kind") == 3 || c.geti("kind") == 4)) {
+            ustr a = deser_u16(c.get("a")), b = deser_u16(c.get("b")), n = deser_u16(c.get("n")), na = cm::norm_name(a);
+            ustr pn = cm::norm_name(b) == na ? b : cm::norm_name(n) == na ? n : a;
+            if (c.geti("kind") == 3 ? pktalias(pn, {&a}) : pktalias(a, {&b, &n})) return std::string("F-PKTALIAS");
+        }
         for (const char *k : {"a", "b", "n", "s"}) if (c.kv.count(k) && has_c1(deser_u16(c.get(k)))) return std::string("F-C1CTRL");
         if (c.get("mode") == "sweep" && c.geti("lo") == c.geti("hi") && is_c1((uint32_t) c.geti("lo"))) return std::string("F-C1CTRL");
         return std::string();
